@@ -6,6 +6,7 @@ import warnings
 from ..runner import TestSpec, Outcome
 from ..terms import Null, Leaf, Op, Prim, Part, PathT, RuleT, SchemaT, show
 from .. import model, build, gen as G, spec as SP
+from ..snapshot import exact
 
 ID = "C19"
 RULE = (
@@ -290,6 +291,53 @@ def body_a(case):
     return out
 
 
+WELLFORMED = {
+    "cond": [{"value.equal_to": 1}, {"and": [{"value.truthy": None}, {"value.equal_to": 2}]}, {"value.equal_to": {"path": ["zz"]}}],
+    "part": [{"type": "map_value", "value": {"value.truthy": None}}, {"type": "list_value", "index": {"index.equal_to": 0}}],
+    "path": [{"path": ["zz", {"type": "list_value", "value": {"value.truthy": None}}]}, {"path.length": ["zz"]}],
+    "rule": [{"path": ["zz"], "condition": {"value.truthy": None}}, {"path": [{"type": "map_value"}], "condition": {"value.equal_to": 1}, "doc": "d"}],
+}
+
+
+def body_a_recycled(case):
+    """The malformed spec is written INTO a structure the library has just parsed successfully (the caller edits its
+    own, well-formed spec in place and gets it wrong): it is rejected all the same."""
+    klass, (entry, spec) = case
+    out = Outcome()
+    out.nontrivial = True
+    out.label(f"A:{klass}", f"entry:{entry}")
+    if entry not in WELLFORMED or not isinstance(spec, dict):
+        out.nontrivial = False
+        return out
+    for w in WELLFORMED[entry]:
+        obj = copy.deepcopy(w)
+        try:
+            parse_entry(entry, obj)
+        except Exception:
+            continue
+        if exact(obj) != exact(w):
+            continue
+        SP.morph(obj, spec)
+        if exact(obj) != exact(spec):
+            continue
+        out.sample = f"{klass} via {entry}: {show(w,150)} parsed, edited in place into {show(spec, 300)}"
+        try:
+            got = parse_entry(entry, obj)
+        except RecursionError as e:
+            out.exc(f"internal-error|{klass}", e)
+            return out
+        except Exception as e:
+            bad = classify_exc(e)
+            if bad:
+                out.exc(f"internal-error|{klass}", e)
+                return out
+            continue
+        out.add("never-accepted", f"never-accepted|after-in-place-edit|{klass}",
+                f"{entry}.from_spec accepted {show(spec,250)} written in place into the parsed {show(w,120)}: {show(got,150)}")
+        return out
+    return out
+
+
 def gen_a_case(r, klass):
     return klass, gen_a(r, klass)
 
@@ -457,5 +505,6 @@ def body_b(case):
 def tests(tier):
     return [
         TestSpec("definite-errors", gen_a_case, body_a, {"quick": 100, "thorough": 40000}, factors=CATALOGUE, tape=768, fuzz={"thorough": 40000}),
+        TestSpec("definite-errors-after-edit", gen_a_case, body_a_recycled, {"quick": 40, "thorough": 8000}, factors=CATALOGUE, tape=768),
         TestSpec("mutations", gen_b, body_b, {"quick": 8000, "thorough": 1200000}, tape=1024, fuzz={"thorough": 150000}),
     ]
